@@ -1,7 +1,8 @@
 (* Properties/C11.v - Redirect policies are enforced exactly.
    Only statements, `exact`, and Print Assumptions.  Model: Model/Authority.v, Model/Redirect.v. *)
 From ReqV Require Import Lib.Bytes Model.Authority Model.Redirect Model.RedirectClient
-  Proofs.RedirectProofs Proofs.RedirectClientProofs.
+  Proofs.RedirectProofs Proofs.RedirectClientProofs Proofs.RedirectSyncProofs.
+From ReqV Require Import Gen.RedirectClientFacts.
 
 (* Host identity = URL hostname, case-insensitive, port stripped whatever its form, IPv6
    without brackets - for EVERY well-formed authority. *)
@@ -202,6 +203,29 @@ Theorem C11_interleaved_chains_end_as_alone : forall ps sched chains i init targ
   Some (fst (run_chain ps init targets), Some (snd (run_chain ps init targets))).
 Proof. exact interleaved_chains_independent. Qed.
 Print Assumptions C11_interleaved_chains_end_as_alone.
+
+(* ---- the tie to the source text (gosync, regenerated on every run) ---- *)
+
+(* the model's decision of every policy value is the boolean function translated from the body of
+   the closure its constructor returns in redirect.go *)
+Theorem C11_permits_is_the_source : forall p target via,
+  permits p target via = src_permits p target via.
+Proof. exact permits_is_the_source. Qed.
+Print Assumptions C11_permits_is_the_source.
+
+(* SetRedirectPolicy / Clone / C() have the shape the client model rests on *)
+Theorem C11_client_source_shape :
+  checkredirect_assignments = 1 /\
+  set_policy_empty_is_noop = true /\
+  set_policy_installs_closure_over_argument = true /\
+  set_policy_other_receiver_writes = 0 /\
+  set_policy_skips_nil = true /\
+  set_policy_first_error_wins = true /\
+  set_policy_closure_extra_statements = 0 /\
+  clone_copies_http_client_by_value = true /\
+  new_client_installs_default = true.
+Proof. exact client_source_shape. Qed.
+Print Assumptions C11_client_source_shape.
 
 (* The pinned (pre-fix) code violates the first theorem; witness kept checked. *)
 Theorem C11_pinned_hostname_refuted :
